@@ -9,7 +9,8 @@ import copy
 
 ID = "C13"
 LEAN_MODULES = ["PyrollProps.C13"]
-MODEL = "c13"
+MODEL = "c13"                                   # lean/Drivers/c13.lean
+MODEL_MODULES = ["PyrollModel.TreeDriver"]      # what that driver imports (built before the model is run)
 RULE = ("random edit histories over a pool of real units (plain Unit, TwoRollPass, Transport, nested PassSequence); "
         "a case is one history; non-trivial = contains at least one list mutation besides construction; "
         "distinct by the canonical op list. 80% of the histories only insert units that are unlisted at that moment "
